@@ -49,6 +49,9 @@ def worker_init(x64, repo: str) -> None:
     warnings.filterwarnings('ignore', message='JAX is not using 64-bit')
     warnings.filterwarnings('ignore', message='Explicitly requested dtype')
     warnings.filterwarnings('ignore', message='JAX is not using 64-bit precision')
+    import logging
+
+    logging.getLogger('jax_healpy').setLevel(logging.ERROR)   # its import-time note about 32-bit mode
     import jax  # noqa: F401
 
     jax.config.update('jax_enable_x64', bool(x64))
